@@ -176,10 +176,13 @@ fn process_dir(
     matcher: &dyn matchers::Matcher,
     quit: &mut bool,
 ) -> i32 {
+    // -mindepth is enforced below, on the depth of the entry itself: walkdir
+    // tests its own stack depth instead, which is one too small for the
+    // directories it hands out late (contents_first) below a starting point
+    // that is a symbolic link (-H), and would drop those at min_depth.
     let mut walkdir = WalkDir::new(dir)
         .contents_first(config.depth_first)
         .max_depth(config.max_depth)
-        .min_depth(config.min_depth)
         .same_file_system(config.same_file_system)
         .follow_links(config.follow == Follow::Always)
         .follow_root_links(config.follow != Follow::Never);
@@ -223,9 +226,7 @@ fn process_dir(
                 writeln!(&mut stderr(), "Error: {err}").unwrap();
             }
             Ok(entry) => {
-                // walkdir lowers min_depth to max_depth when it is larger, and reports
-                // broken symbolic links whatever their depth, so enforce the lower
-                // bound here as well.
+                // The lower bound (walkdir is not told about it, see above).
                 if entry.depth() < config.min_depth {
                     continue;
                 }
